@@ -454,8 +454,8 @@ def _sev_leaves_set(interp, st, a, old_state):
     tree, fl = a
     now = _stored(interp, st)
     before = _stored(interp, old_state)
-    ks = interp.read_field(old_state, fl, "dict_str_ref", "keys")
-    mp = interp.read_field(old_state, fl, "dict_str_ref", "map")
+    ks = interp.read_field(old_state, fl, "dict_PDDLFunction", "keys")
+    mp = interp.read_field(old_state, fl, "dict_PDDLFunction", "map")
     r = z3.Const("r!sev", I)
     want = z3.If(z3.Contains(ks.t, z3.Unit(_urep(r))), z3.Select(before, z3.Select(mp.t, _urep(r))), z3.RealVal(0))
     return z3.ForAll([r], z3.Implies(leaf_of(tree.t, r), z3.Select(now, r) == want), patterns=[z3.Select(now, r)])
@@ -477,8 +477,8 @@ def _h_separate(interp, st, a):
     """no fluent object of the state is a leaf of the tree (the state's objects are only read)"""
     from pyvc.sorts import leaf_of, S
     tree, fl = a
-    ks = interp.read_field(st, fl, "dict_str_ref", "keys")
-    mp = interp.read_field(st, fl, "dict_str_ref", "map")
+    ks = interp.read_field(st, fl, "dict_PDDLFunction", "keys")
+    mp = interp.read_field(st, fl, "dict_PDDLFunction", "map")
     k = z3.Const("k!sep", S)
     return Val(z3.ForAll([k], z3.Implies(z3.Contains(ks.t, z3.Unit(k)), z3.Not(leaf_of(tree.t, z3.Select(mp.t, k))))), "bool")
 
@@ -488,7 +488,7 @@ CONTRACTS["models.pddl_function:PDDLFunction.untyped_representation"] = dict(
     prop="C12", assumed=True, params={"self": _FN}, returns="str", allocates=False,
     ensures=["result == urep(self)"], raises={}, modifies=[], spec_hooks=_SEV_HOOKS)
 CONTRACTS[NE + "set_expression_value"] = dict(
-    prop="C12", params={"expression_node": "tree", "state_fluents": ("ref", "dict_str_ref")}, returns="none", allocates=False,
+    prop="C12", params={"expression_node": "tree", "state_fluents": ("ref", "dict_PDDLFunction")}, returns="none", allocates=False,
     locals={"grounded_fluent": _FN}, dict_values={"dict_str_ref": "PDDLFunction"},
     requires=["tree_refs_ok(expression_node)", "separate(expression_node, state_fluents)"],
     ensures=["leaves_set(expression_node, state_fluents)", "others_kept(expression_node)"],
